@@ -315,8 +315,15 @@ def run_stream(harness, modelrun, stream, tier, seed, workdir, log, extra_args=(
     if rc != 0:
         # the code under test runs inside the harness process: a runtime abort of the gateway code is an observation
         m = re.search(r"fatal error: (concurrent map [a-z ]+|all goroutines are asleep[^\n]*)|panic: (concurrent write to websocket connection)", out)
-        if m:
-            what = (m.group(1) or m.group(2)).strip().replace(" ", "-")
+        # any other panic / runtime abort that unwinds through the gateway's own packages (a goroutine the
+        # gateway started is outside every recover: in production this is the end of the process)
+        m2 = None
+        if not m and "github.com/bolkedebruin/rdpgw/" in out:
+            m2 = re.search(r"^(panic: [^\n]{0,120}|fatal error: [^\n]{0,120})", out, re.M)
+        if m or m2:
+            what = (m.group(1) or m.group(2)) if m else m2.group(1)
+            what = re.sub(r"0x[0-9a-f]+", "ADDR", what.strip())
+            what = re.sub(r"[^A-Za-z0-9:.]+", "-", what).strip("-")[:100]
             with open(cases_p, "a") as f:
                 f.write("crash-1\tcrash\t%s\tprocess-aborted\n" % what)
         else:
